@@ -2,6 +2,7 @@ import CobyqaVerif.Alg.Solve
 import CobyqaVerif.Props.C04
 import CobyqaVerif.Alg.Tcg
 import CobyqaVerif.Alg.Cauchy
+import CobyqaVerif.Alg.Spider
 import CobyqaVerif.Model.Arith
 /-!
 Exact (rational) driver for the algebra of the models: `lake env lean --run DriverAlg.lean`.
@@ -309,6 +310,21 @@ def doCauchy (n : ℕ) (parts : List String) : String :=
     | _, _, _, _, _, _, _, _, _ => "bad-op"
   | _ => "bad-op"
 
+/-! `spider n p | const ; g ; H ; xl ; xu ; delta ; xpt (p lines of n) ; norms (p)`  -> `ok step..`: `Cobyqa.Spider.spider` -/
+def doSpider (n p : ℕ) (parts : List String) : String :=
+  match parts with
+  | [k, g, H, lo, hi, d, xp, sn] =>
+    match ratsOf k, ratsOf g, ratsOf H, optsOf lo, optsOf hi, ratsOf d, ratsOf xp, ratsOf sn with
+    | some k, some g, some H, some lo, some hi, some d, some xp, some sn =>
+      if k.size ≠ 1 || g.size ≠ n || H.size ≠ n * n || lo.size ≠ n || hi.size ≠ n || d.size ≠ 1 || xp.size ≠ p * n || sn.size ≠ p then "bad-op" else
+      let P : Cobyqa.Cauchy.GProb n Rat :=
+        { const := k[0]!, g := vecOf g, H := fun i j => H[i.val * n + j.val]!, xl := fun i => lo[i.val]!, xu := fun i => hi[i.val]!, delta := d[0]! }
+      let lines : List ((Fin n → Rat) × Rat) := (List.range p).map fun l => ((fun i : Fin n => xp[l * n + i.val]!), sn[l]!)
+      let st := (Cobyqa.Spider.spider P lines).1
+      "ok " ++ " ".intercalate ((listFin n).map fun i => showRat (st i))
+    | _, _, _, _, _, _, _, _ => "bad-op"
+  | _ => "bad-op"
+
 def handleAlg (line : String) : String :=
   match line.splitOn "|" with
   | [h, body] =>
@@ -320,6 +336,7 @@ def handleAlg (line : String) : String :=
       | some n, some m, some me, some r => doKkt n m me r parts | _, _, _, _ => "bad-op"
     | ["tcg", n, fuel] => match n.toNat?, fuel.toNat? with | some n, some f => doTcg n f parts | _, _ => "bad-op"
     | ["cauchy", n] => match n.toNat? with | some n => doCauchy n parts | _ => "bad-op"
+    | ["spider", n, p] => match n.toNat?, p.toNat? with | some n, some p => doSpider n p parts | _, _ => "bad-op"
     | ["ball", n] => match n.toNat? with | some n => doBall n parts | _ => "bad-op"
     | _ => "bad-op"
   | _ => "bad-op"
